@@ -7,6 +7,7 @@ import (
 	"reflect"
 	"strings"
 	"sync"
+	"unicode"
 
 	"github.com/gookit/goutil"
 )
@@ -480,7 +481,11 @@ func (r *Router) formatPath(path string) string {
 	path = strings.TrimSpace(path)
 	// clear last slash: '/'
 	if !r.strictLastSlash && strings.HasSuffix(path, "/") {
-		path = strings.TrimRight(path, "/") // TODO alloc 1 times
+		// also drop white space in front of the slashes: the result must not change when it is
+		// formatted again (a group prefix and its route paths are formatted twice).
+		path = strings.TrimRightFunc(path, func(c rune) bool {
+			return c == '/' || unicode.IsSpace(c)
+		})
 	}
 
 	if path == "" || path == "/" {
